@@ -130,6 +130,10 @@ pub(crate) trait DynamicChannelRegion: ChannelRegion {
 
 impl<R: DynamicChannelRegion> RegionHandler for DynamicChannelPlan<R> {
     fn process_join_accept(&mut self, c_f_list: Option<&CfList>) {
+        // A JoinAccept starts a new session: the channel mask a LinkADRReq of the previous
+        // session left behind no longer applies. (Keeping it could leave the device without
+        // any enabled channel once the CFList below replaces the channels it had enabled.)
+        self.channel_mask = Default::default();
         match c_f_list {
             // Type 0
             Some(CfList::DynamicChannel(cf_list)) => {
